@@ -245,6 +245,7 @@ def _do(kind, st, o):
         elif code == 16: st.L = p.segment_requests
         elif code == 2: p.start_of_scope = v
         elif code == 3: p.end_of_scope = v
+        elif code == 20: return [0, p.get_max_seg_reqs_for_max_packet_size(v)]
         else: return [1, 97]
     elif kind == "md":
         q = p.params
@@ -756,6 +757,16 @@ def oracle(case, ires, sres):
                     return ("C11/%s.history/pack" % name, "%s after %s packs %s, the layout of its current values is %s"
                             % (who, hist, e[:60], exp[:60]))
                 continue
+            if kind == "nak" and o[0] == 20:
+                # the PDU with n segment requests fits into the given size, the one with n + 1 does not
+                if hdr_ok(v) and v.ptype == 0:
+                    w2 = 16 if v.flags[1] else 8
+                    base = 4 + 2 * v.ids[1] + v.ids[5] + 1 + (2 if v.flags[2] else 0) + w2
+                    mx = g(o, 1)
+                    if (mx < base) != (e[0] == 1) or (e[0] == 0 and not base + e[1] * w2 <= mx < base + (e[1] + 1) * w2):
+                        return ("C06/NakPdu.get_max_seg_reqs/value", "%s after %s: get_max_seg_reqs_for_max_packet_size(%d) = %s "
+                                "(base length %d, %d octets per request)" % (who, hist, mx, e, base, w2))
+                continue
             if o[0] == 121:
                 n = plen(v) if v.synced else None
                 if n is not None:
@@ -884,6 +895,7 @@ def gen_specific(kind, rng, large):
         if k in (4, 5): return [12, C._rand_off(rng, large), C._rand_off(rng, large)]
         if k == 6: return [rng.choice([13, 14])]
         if k == 7: return [16]
+        if k == 8: return [20, rng.choice([0, 20, 21, 29, 30, 37, 45, 46, 61, 62, 100, 512, 4096, 65535, rng.randrange(0, 300)])]
         return [rng.choice([2, 3]), C._rand_off(rng, rng.randrange(2))]
     if kind == "md":
         k = rng.randrange(14)
